@@ -146,7 +146,12 @@ def main():
                 rec["points"].append({"dt": enc_dt(d), "end": enc_dt(end), "obs": observe(oh, kind, zone, d, end)})
             out.write(json.dumps(rec) + "\n"); n += 1
     # (C) validate and str/repr round trips
-    for s in EXPRS + REPR_EXPRS + ["", " ", "Mo[6]", "\"", "Mo-Fr 10:00-18:00;Sa-Su 10:00-12:00", "PH +1 day", "(sunrise+00:30)-sunset", "10:00-12:00/30", "2030-2030/3"]:
+    for s in EXPRS + REPR_EXPRS + ["", " ", "Mo[6]", "\"", "Mo-Fr 10:00-18:00;Sa-Su 10:00-12:00", "PH +1 day", "(sunrise+00:30)-sunset", "10:00-12:00/30", "2030-2030/3",
+              # one input per error class of the parser (grammar error, unsupported construct, numeric
+              # overflow, invalid extended time) and per out-of-range field of the statement's list
+              "10:00-48:01", "Mo-Fr 22:00-48:30", "10:00-49:00", "week 1-10/256", "week 1-10/255", "2020-2030/65536", "2020-2030/65535", "Jan 1 +9223372036854775808 days",
+              "Jan 1 +9223372036854775807 days", "easter-31", "easter 31", "10:00", "Mo 10:00", "Mo 25:00-26:00", "Mo 24:00-26:00", "Mo[0]", "Mo[5]", "1899", "1900", "9999", "10000", "week 54", "week 53",
+              "week 0", "Jan 32", "Jan 31", "Jan 0", "10:60-12:00", "2020-2030/0", "week 1-10/0", "Mo \"unbalanced", "24/24", " 24/7 ", "24/7"]:
         rec = {"part": "C", "expr": s}
         rec["validate"] = guard(lambda: OH.validate(s))
         made = guard(lambda: OH.OpeningHours(s))
